@@ -1708,10 +1708,8 @@ char *hostlist_pop(hostlist_t hl)
         hostrange_t hr = hl->hr[hl->nranges - 1];
         host = hostrange_pop(hr);
         hl->nhosts--;
-        if (hostrange_empty(hr)) {
-            hostrange_destroy(hl->hr[--hl->nranges]);
-            hl->hr[hl->nranges] = NULL;
-        }
+        if (hostrange_empty(hr))      /* re-bases the iterators as well */
+            hostlist_delete_range(hl, hl->nranges - 1);
     }
     UNLOCK_HOSTLIST(hl);
     return host;
